@@ -364,6 +364,12 @@ impl World {
                 if r.is_err() {
                     return Ok(());
                 }
+                // bookkeeping: these contents were submitted too
+                let mut tr = vec![];
+                model::collect_tracked(&Value::from(doc.clone()), &mut vec![], &mut tr);
+                for (id, own) in &tr {
+                    self.submitted.entry(id.clone()).or_default().insert(own.to_string());
+                }
             }
             if commit_each {
                 self.op_commit(i, None)?;
